@@ -51,7 +51,32 @@ pub fn decode_bytes(st: &mut H263State, bytes: &[u8]) -> Outcome {
     decode_with(st, &mut rd)
 }
 
+thread_local! {
+    static POISON: std::cell::Cell<u8> = const { std::cell::Cell::new(0xA5) };
+}
+
+/// Dirty the allocator's free lists with buffers of the sizes the next picture's planes will
+/// probably have (those of the most recent picture), so that a plane that is not completely
+/// written shows whatever was there instead of the zeros of a fresh heap. Small pictures only:
+/// large allocations come straight from the kernel and are always zero.
+pub fn poison_heap(st: &H263State) {
+    let Some(p) = st.get_last_picture() else { return };
+    let (y, cb, _) = p.as_yuv();
+    if y.len() > 1 << 16 {
+        return;
+    }
+    let v = POISON.with(|c| {
+        let v = c.get();
+        c.set(v.wrapping_mul(29).wrapping_add(71) | 1);
+        v
+    });
+    let bufs: Vec<Vec<u8>> = [y.len(), cb.len(), cb.len(), y.len(), cb.len(), cb.len()].iter().map(|&n| vec![v; n]).collect();
+    std::hint::black_box(&bufs);
+    drop(bufs);
+}
+
 pub fn decode_with<R: std::io::Read>(st: &mut H263State, rd: &mut H263Reader<R>) -> Outcome {
+    poison_heap(st);
     match catch(|| st.decode_next_picture(rd)) {
         Ok(Ok(())) => Outcome::Ok,
         Ok(Err(e)) => Outcome::Err(format!("{e:?}").split('(').next().unwrap().to_string()),
